@@ -91,6 +91,16 @@ def sweep(acc, case, sig, path, bounds, call, judge, offsets=None):
     data = open(path, 'rb').read()
     classes = {}
     offs = range(len(data)) if offsets is None else offsets
+    # call history: the complete file is read first (whatever a reader keeps between calls is then filled with the complete data),
+    # and again after the sweep (must still be the complete data)
+    try:
+        full = call()
+    except Exception as e:
+        raise engine.MachineryError('the untruncated file set cannot be read: %r' % (e,))
+    nrec = len(bounds) - 1
+    bad = judge(full, nrec)
+    if bad:
+        acc.fail(sig + ':complete-file', dict(case, offset=len(data)), 'complete file: %s' % bad)
     for b in offs:
         with open(path, 'wb') as f:
             f.write(data[:b])
@@ -109,6 +119,14 @@ def sweep(acc, case, sig, path, bounds, call, judge, offsets=None):
             acc.ok((sig, b), inside, 'complete-prefix' if inside else 'complete-prefix(at a record boundary)')
     with open(path, 'wb') as f:
         f.write(data)
+    try:
+        bad = judge(call(), nrec)
+    except Exception as e:
+        bad = 'raised %s: %s' % (type(e).__name__, e)
+    if bad:
+        acc.fail(sig + ':complete-file-after-sweep', dict(case, offset=len(data)), 'the complete file read again after the truncated ones: %s' % bad)
+    else:
+        acc.ok((sig, 'complete-after'), True, 'complete-file-after-truncated-reads')
 
 
 # ----------------------------------------------------------------------------- binary formats
@@ -302,7 +320,9 @@ def run_sfcf(pe, acc, case, d):
                             return 'replica r%d (untouched file): configurations %s' % (r, got_cfgs)
                     else:
                         complete = cfgs[r][:m] if layout == 'a' else [c for c in cfgs[r] if c != tcfg]
-                        if not set(complete) <= set(got_cfgs) or not set(got_cfgs) <= set(cfgs[r]):
+                        # at most the record that contains the cut may be present in addition (its requested block can lie before the cut)
+                        upper = cfgs[r][:m + 1] if layout == 'a' else cfgs[r]
+                        if not set(complete) <= set(got_cfgs) or not set(got_cfgs) <= set(upper):
                             return 'replica r%d: configurations %s; complete records are %s' % (r, got_cfgs, complete)
                     exp = [sf.value(r, c, name, qi, off, w, w2, t, 0) for c in got_cfgs]
                     if not np.allclose(samples(o, n), exp, rtol=1e-15, atol=0):
